@@ -18,6 +18,7 @@ import (
 	"fmt"
 	"os"
 	"path/filepath"
+	"runtime/debug"
 	"strconv"
 	"strings"
 	"sync"
@@ -41,7 +42,7 @@ type w13Known struct {
 	keys map[string]bool
 	// root causes, see /verif/harness/notes/C13.md
 	shortFrame, args2flag, setexArity, appendNil, callDbid, incrNoValue, lockData, scanArity, valueOffset,
-	lessVersion, elemBounds, propWalk, errMsg12, willRecursion, ackUnheld bool
+	lessVersion, elemBounds, propWalk, errMsg12, willRecursion, ackUnheld, recoverNil, execAlloc bool
 }
 
 var (
@@ -68,6 +69,8 @@ func w13KnownKeys() *w13Known {
 		k.errMsg12 = k.fn("protocol.(*TextCommandConverter).WriteTextLockAndUnLockCommandResult")
 		k.willRecursion = k.fn("server.(*BinaryServerProtocol).ProcessLockResultCommand")
 		k.ackUnheld = k.fn("server.(*ReplicationAckDB).ProcessLeaderPushLock")
+		k.recoverNil = k.fn("server.(*LockManager).ProcessRecoverLockData")
+		k.execAlloc = k.fn("protocol.(*LockCommandData).DecodeLockCommand")
 		w13KnownVal = k
 	})
 	return w13KnownVal
@@ -103,13 +106,20 @@ func (k *w13Known) w13RawKnown(b []byte) string {
 		(bytes.Contains(b, []byte{0x56, 0x01, 0x08}) || bytes.Contains(b, []byte{0x56, 0x01, 0x09})) {
 		return "INIT and WILL_LOCK/WILL_UNLOCK on one binary connection (known finding: result recursion on close kills the process)"
 	}
-	if k.ackUnheld {
-		// a LOCK frame (also WILL_LOCK, also embedded in an EXECUTE value frame) with Expried 0 and the
-		// ack-required time-out flag: the AOF channel goroutine dereferences the freed lock
-		for i := 0; i+64 <= len(b); i++ {
-			if b[i] == 0x56 && b[i+1] == 0x01 && (b[i+2] == 1 || b[i+2] == 8) && b[i+56]&0x10 != 0 && b[i+57] == 0 && b[i+58] == 0 {
-				return "LOCK frame with Expried 0 and the ack-required flag (known finding: AOF channel goroutine dereferences the freed lock)"
-			}
+	// frames: top level, WILL_LOCK (executed as LOCK on close) or embedded in an EXECUTE value frame
+	for i := 0; (k.ackUnheld || k.recoverNil || k.execAlloc) && i+64 <= len(b); i++ {
+		if b[i] != 0x56 || b[i+1] != 0x01 {
+			continue
+		}
+		lock := b[i+2] == 1 || b[i+2] == 8
+		if k.ackUnheld && lock && b[i+56]&0x10 != 0 && b[i+57] == 0 && b[i+58] == 0 {
+			return "LOCK frame with Expried 0 and the ack-required flag (known finding: AOF channel goroutine dereferences the freed lock)"
+		}
+		if k.recoverNil && lock && b[i+56]&0x10 != 0 && b[i+19]&0x20 != 0 {
+			return "LOCK frame with a value frame and the ack-required flag (known finding: time-out sweep recovers through a nil value)"
+		}
+		if k.execAlloc && i > 0 && b[i+19]&0x20 != 0 && i+68 <= len(b) && b[i+67] >= 0x10 {
+			return "frame inside the stream whose value frame declares 256 MiB or more (known finding: DecodeLockCommand allocates before checking)"
 		}
 	}
 	return ""
@@ -281,6 +291,11 @@ func w13DataTypeName(t byte) string {
 
 // genValueFrame returns a complete frame including its length prefix.
 func (g *w13Gen) genValueFrame(depth int, db byte) ([]byte, string) {
+	return g.genValueFrameIn(depth, db, false)
+}
+
+// genValueFrameIn: embedded = the frame belongs to a lock command inside an EXECUTE value frame.
+func (g *w13Gen) genValueFrameIn(depth int, db byte, embedded bool) ([]byte, string) {
 	// every length 0..64 with arbitrary content
 	if g.pct("vfExact", 22) {
 		l := g.n("vfLen", 0, 64)
@@ -465,6 +480,10 @@ func (g *w13Gen) genValueFrame(depth int, db byte) ([]byte, string) {
 			g.exclude("value frame shorter than its 2-byte header (known finding)")
 			declared = uint32(len(body))
 		}
+		if embedded && declared >= 0x10000000 && g.known.execAlloc {
+			g.exclude("embedded value frame that declares 256 MiB or more (known finding: DecodeLockCommand allocates before checking)")
+			declared = uint32(len(body))
+		}
 		if declared < uint32(len(body)) && flags&0x10 != 0 && !propLies {
 			declared = uint32(len(body)) // a shortened frame would cut into the property header
 		}
@@ -539,6 +558,10 @@ func (g *w13Gen) genLockFrame(depth int, embedded bool, db byte) ([]byte, string
 			timeout, tflag = uint16(g.n("lfTimerTimeoutS", 0, 1)), tflag&^0x8440
 		}
 	}
+	if withData && tflag&0x1000 != 0 && g.known.recoverNil {
+		g.exclude("LOCK frame with a value frame and the ack-required flag (known finding)")
+		tflag &^= 0x1000
+	}
 	count := g.u16("lfCount")
 	rcount := byte(rapid.SampledFrom([]int{0, 0, 1, 2, 0xfe, 0xff}).Draw(g.t, "lfRcount"))
 	f[53], f[54], f[55], f[56] = byte(timeout), byte(timeout>>8), byte(tflag), byte(tflag>>8)
@@ -550,7 +573,7 @@ func (g *w13Gen) genLockFrame(depth int, embedded bool, db byte) ([]byte, string
 	}
 	desc := fmt.Sprintf("%s flag=%#x db=%d key=%x id=%x t=%d/%#x e=%d/%#x c=%d rc=%d", name, flag, f[20], key[14:], id[14:], timeout, tflag, expried, eflag, count, rcount)
 	if withData {
-		vf, vd := g.genValueFrame(depth, f[20])
+		vf, vd := g.genValueFrameIn(depth, f[20], embedded)
 		f = append(f, vf...)
 		desc += " " + vd
 	}
@@ -753,7 +776,7 @@ func (g *w13Gen) safeLockTimeout(label string) string {
 		g.exclude("time-out flag 0x4000 (known finding: less-lock-version without a holder)")
 		flags &^= 0x4000
 	}
-	if flags&0x1000 != 0 && (g.known.errMsg12 || g.known.ackUnheld) {
+	if flags&0x1000 != 0 && (g.known.errMsg12 || g.known.ackUnheld || g.known.recoverNil) {
 		g.exclude("text lock with the ack-required flag (known findings: result code 12 has no text; ack of a lock that is not held)")
 		flags &^= 0x1000
 	}
@@ -1446,6 +1469,10 @@ func w13Judge(st *vStat, c *w13Case, fuzzing bool) *w13Failure {
 
 func w13WireProperty(test string, timers bool) func(t *rapid.T) {
 	st := vstat(test)
+	if os.Getenv("VERIF_C13_CHILD") != "" {
+		// the driver runs shards under "ulimit -v 6 GiB"; do the same when run by hand
+		w13LimitAddressSpace(vEnvInt("VERIF_C13_AS_MB", 6144))
+	}
 	return func(t *rapid.T) {
 		c := w13GenCaseVariant(t, st, timers)
 		if len(c.Conns) == 0 {
@@ -1584,13 +1611,26 @@ func FuzzC13_Wire(f *testing.F) {
 		}
 	}
 	execs := 0
+	faildir := os.Getenv("VERIF_FAILDIR")
+	var recent []*w13Case // worker: the last inputs, newest last
+	if worker && faildir != "" {
+		// a worker that dies (a goroutine of the server panics) takes its stderr with it: keep the crash
+		// report and the inputs it was working on for the coordinator
+		if cf, err := os.Create(filepath.Join(faildir, fmt.Sprintf("fuzzworker-%d.crash", os.Getpid()))); err == nil {
+			_ = debug.SetCrashOutput(cf, debug.CrashOptions{})
+		}
+	}
 	defer func() {
-		if sp := os.Getenv("VERIF_STATS"); sp != "" && !worker {
+		if worker {
+			return
+		}
+		if sp := os.Getenv("VERIF_STATS"); sp != "" {
 			files, _ := filepath.Glob(sp + ".w*")
 			for _, wf := range files {
 				w13MergeChildStats(wf)
 			}
 		}
+		w13ReportWorkerCrashes(faildir)
 	}()
 	f.Fuzz(func(t *testing.T, data []byte, split uint16) {
 		if worker {
@@ -1611,11 +1651,62 @@ func FuzzC13_Wire(f *testing.F) {
 		}
 		// every input runs on a fresh instance, so a saved crasher reproduces on its own
 		c := &w13Case{Conns: []w13Conn{{Kind: "raw", Hex: hex.EncodeToString(data), Chunks: w13FuzzChunks(len(data), split)}}}
+		if worker && faildir != "" {
+			if recent = append(recent, c); len(recent) > 6 {
+				recent = recent[1:]
+			}
+			if b, err := json.Marshal(recent); err == nil {
+				_ = os.WriteFile(filepath.Join(faildir, fmt.Sprintf("fuzzworker-%d.inflight.json", os.Getpid())), b, 0644)
+			}
+		}
 		if fail := w13Judge(st, c, true); fail != nil {
 			vRecordFailure("FuzzC13_Wire", fail.Key, fail.Msg, c)
 			t.Fatalf("VERIF-FAIL key=%s %s", fail.Key, fail.Msg)
 		}
 	})
+}
+
+// w13ReportWorkerCrashes (coordinator): turn the crash reports of dead fuzz workers into keyed
+// failures with a reproduction. The input the fuzzing engine blames is the one in flight; a goroutine
+// of the server may have died of an earlier one, so the last inputs are tried in isolation.
+func w13ReportWorkerCrashes(faildir string) {
+	if faildir == "" {
+		return
+	}
+	files, _ := filepath.Glob(filepath.Join(faildir, "fuzzworker-*.crash"))
+	for _, cf := range files {
+		b, err := os.ReadFile(cf)
+		if err != nil || len(b) == 0 {
+			continue
+		}
+		head, stack, crashed := w13CrashTail(string(b))
+		if !crashed {
+			continue
+		}
+		if big, oom := w13OOM(head, stack); oom && !big {
+			fmt.Printf("VERIF-INCONCLUSIVE C13 fuzz worker ran out of memory (%s)\n", head)
+			continue
+		}
+		key := w13BackgroundKey(stack)
+		var recent []*w13Case
+		if ib, rerr := os.ReadFile(strings.TrimSuffix(cf, ".crash") + ".inflight.json"); rerr == nil {
+			_ = json.Unmarshal(ib, &recent)
+		}
+		var culprit *w13Case
+		note := "none of the last inputs of the worker reproduces it in isolation"
+		for i := len(recent) - 1; i >= 0; i-- {
+			if rep, rkey, _ := w13ReplayIsolated(recent[i]); rep {
+				culprit, note = recent[i], fmt.Sprintf("input %d before the end of the worker reproduces it in isolation (as %s)", len(recent)-1-i, rkey)
+				break
+			}
+		}
+		if culprit == nil && len(recent) > 0 {
+			culprit = recent[len(recent)-1]
+		}
+		msg := fmt.Sprintf("a fuzz worker died: %s; %s\n%s", head, note, w13Head(stack, 30))
+		vRecordFailure("FuzzC13_Wire", key, msg, culprit)
+		fmt.Printf("VERIF-FAIL key=%s %s\n", key, strings.ReplaceAll(msg, "\n", " | "))
+	}
 }
 
 func w13FlushWorkerStats() {
